@@ -592,7 +592,7 @@ func init() {
 	})
 
 	register(&Rule{
-		ID: "C10.R6", Props: []string{"C10", "C15", "C09", "C13", "C20"}, Min: 3,
+		ID: "C10.R6", Props: []string{"C10", "C15", "C09", "C13", "C20", "C03", "C04"}, Min: 3, // C03/C04: a condition or per-item expression is a function of its text and the current scope only
 		Doc: "memoised results are keyed by everything they depend on: for every cache written while rendering — a mutex-guarded map of an engine object, or a package-level sync.Map / map — the value stored under a key is computed only from the key (plus constants and, for a per-engine cache, the engine's own configuration); it never depends on per-call data that is not part of the key, and a package-level cache never depends on the instance that filled it",
 		Run: func(p *Prog, c *Ctx) {
 			cone := p.Cone(append(p.concurrentEntries(), p.exportedEntries(markdownPkg)...)...)
